@@ -386,6 +386,24 @@ func batchC15(res *h.Result, r *rand.Rand) {
 			}
 		}
 	}
+	// twins: two error values with the SAME message and different chains, classified one after
+	// the other in one process - a text-only error first, then an interruption that renders to
+	// the same text (the verdict belongs to the value, not to its message)
+	for ti, frag := range permPatterns {
+		for li, leaf := range []error{context.Canceled, context.DeadlineExceeded} {
+			txt := fmt.Sprintf("refresh %d/%d refused: %s", ti, li, frag)
+			twin := errors.New(txt + ": " + leaf.Error())
+			real := fmt.Errorf("%s: %w", txt, leaf)
+			_ = leader.IsPermanentError(twin)
+			_ = leader.IsTransientError(twin)
+			p, tr := leader.IsPermanentError(real), leader.IsTransientError(real)
+			res.Evals++
+			res.Obs["c15.twins"]++
+			if p || !tr {
+				addViol(res, "C15", "documented-class", "transient-kind-classified-permanent:"+leaf.Error()+":after-text-twin", fmt.Sprintf("%q wrapping %v classified permanent=%v transient=%v after an errors.New with the same text had been classified", txt, leaf, p, tr))
+			}
+		}
+	}
 	for i := 0; i < n; i++ {
 		nd := genTree(r, 4)
 		p, tr := leader.IsPermanentError(nd.err), leader.IsTransientError(nd.err)
